@@ -1,4 +1,5 @@
 #![allow(dead_code)]
+mod c05;
 mod c11;
 mod c13;
 mod c15;
@@ -58,9 +59,10 @@ fn main() {
         "C15" => c15::generate(tier, seed, &out, nshards, replay.as_deref()),
         "C11" => c11::generate(tier, seed, &out, nshards, replay.as_deref()),
         "C16" => c16::generate(tier, seed, &out, nshards, replay.as_deref()),
+        "C05" => c05::generate(tier, seed, &out, nshards, replay.as_deref()),
         "C03" | "C04" => dd::generate(prop, tier, seed, &out, nshards, replay.as_deref()),
         "C13" => c13::generate(tier, seed, &out, nshards, replay.as_deref()),
-        "TG" | "C01" | "C02" | "C05" | "C06" | "C07" | "C08" | "C09" | "C10" | "C17" | "C18" => {
+        "TG" | "C01" | "C02" | "C06" | "C07" | "C08" | "C09" | "C10" | "C17" | "C18" => {
             tg::generate(prop, tier, seed, &out, nshards, replay.as_deref())
         }
         _ => {
